@@ -239,3 +239,15 @@ PLAN["C15"] = {
     "runs": runs([dict(MON16, budget=150), {"flavour": "miri", "shards": 8, "budget": 200, "timeout": 900}],
                  [dict(MON16, budget=900), {"flavour": "asan", "shards": 16, "scale": 0.1, "budget": 600}, {"flavour": "miri", "shards": 16, "budget": 600, "timeout": 2400}]),
 }
+
+PLAN["C14"] = {
+    "rule": "Exp / Pow(alpha log-spaced towards 0 and 1) / GenPow(dim1 2..6, dim2 1..5) cone objects at interior z in K*, s in K (magnitudes 1e-6..1e6, relative boundary distance 1..1e-6), "
+            "mu in 1e-8..1e4: the dual barriers are written in the harness from their definitions and differentiated by truncated Taylor arithmetic over double-double (no finite differences): "
+            "membership predicates, barrier_dual value, stored gradient and Hessian (GenPow: D+pp'-qq'-rr'), Hs=mu*H under dual scaling and mul_Hs agreeing with it, conjugacy "
+            "grad f*(-gradient_primal(s)) = -s and barrier_primal = -f*(-g)-nu, higher_correction = 1/2 D3f*(z)[H^-1 ds, v] by polarisation of the cubic form, primal-dual scaling symmetric "
+            "positive definite and either both secant equations or the mu*H fallback (never neither), unit initialisation central with mu=1; tolerances scale with 1/(relative boundary distance)",
+    "assumptions": CONE_ASSUME + ["conjugacy tolerance 1e-7 x conditioning is derived from the implementation's documented sqrt(eps) stopping rule"],
+    "min_nontrivial": 500,
+    "runs": runs([dict(MON16, budget=150), {"flavour": "miri", "shards": 8, "budget": 200, "timeout": 900}],
+                 [dict(MON16, budget=900), {"flavour": "asan", "shards": 16, "scale": 0.1, "budget": 600}, {"flavour": "miri", "shards": 16, "budget": 600, "timeout": 2400}]),
+}
